@@ -70,6 +70,9 @@ type interpreter struct {
 	onceGlobals  map[*ssa.Global]bool
 	initAllowed  map[*ssa.Package]bool
 	params       map[string]int
+	condSignals  int
+	opaqueInts   bool
+	zeroStubs    map[string]bool
 }
 
 type goroutine struct {
@@ -446,6 +449,10 @@ func callSSA(i *interpreter, caller *frame, callpos token.Pos, fn *ssa.Function,
 	if fn.Parent() == nil {
 		if fn.Synthetic == "package initializer" && !i.initAllowed[fn.Pkg] {
 			return nil
+		}
+		if i.zeroStubs[name] {
+			i.intrHit["zero-stub:"+name]++
+			return zero(fn.Signature.Results())
 		}
 		if len(i.stubs) > 0 {
 			if repl, ok := i.stubs[name]; ok {
